@@ -355,8 +355,9 @@ class Conn:
                 return j
             return k
         if self.seg_mode == 2:
+            # one byte per recv for the first 1500 bytes, then 97-byte reads
             self.sim.fault("net.segment")
-            return 1
+            return 1 if sock._rx_total < 1500 else min(k, 97)
         if k > self.seg_mode:
             self.sim.fault("net.segment")
             return self.seg_mode
